@@ -22,6 +22,7 @@ def run(chk):
     r1(chk, prog, m)
     r2(chk, prog, m)
     r3(chk, prog, m)
+    r5(chk, prog, m)
     own.rule_leaks(chk, prog, "C20.R4", only_functions={"json_object_from_fd_ex", "json_object_from_file", "json_object_to_file_ext",
                                                          "_json_object_to_fd", "json_object_to_fd"}, floor=4)
     chk.undecided_clauses += [
@@ -269,6 +270,54 @@ def r2(chk, prog, m):
     chk.floor(rid, n, 5, "read-loop obligations")
 
 
+def _sets_message_on_failure(m, g, seen=None):
+    """every failing return of g is preceded on its path by the message setter"""
+    seen = seen or set()
+    if g is None or g.is_decl or g.name in seen:
+        return False
+    setters = {i.block for i in g.instrs() if i.op == "call" and i.callee == "_json_c_set_last_err"}
+    fail = (lambda v: v.kind == "null") if g.ret_type.endswith("*") else (lambda v: v.kind == "int" and v.v < 0)
+    for pb in _ret_preds(g, fail):
+        work, vis = [g.entry], set()
+        while work:
+            b = work.pop()
+            if b in vis or b in setters:
+                continue
+            vis.add(b)
+            if b is pb:
+                return False
+            work.extend(b.succs)
+    return True
+
+
+def _failure_of_message_setting_callee(prog, m, f, pb):
+    """the block is reached only when a call to a function of this module that reports its own failures returned a failure"""
+    from ..flow import dominating_conditions
+    for cnd, tr in dominating_conditions(f, pb):
+        if getattr(cnd, "op", None) != "icmp":
+            continue
+        a, b = cnd.ops
+        if a.kind != "reg":
+            continue
+        d = f.defs.get(a.v)
+        hops = 0
+        while d is not None and d.op in ("sext", "zext", "trunc", "bitcast") and hops < 4:
+            a = d.ops[0]
+            d = f.defs.get(a.v) if a.kind == "reg" else None
+            hops += 1
+        if d is None or d.op != "call" or not d.callee:
+            continue
+        g = m.functions.get(d.callee)
+        if g is None or g.is_decl:
+            continue      # only failures of this module's own functions are propagated; they answer for their own messages
+        p = cnd.x["pred"]
+        failed = (b.kind == "int" and ((p == "slt" and b.v == 0 and tr) or (p == "sge" and b.v == 0 and not tr) or (p == "eq" and b.v == -1 and tr)
+                                       or (p == "ne" and b.v == 0 and tr))) or (b.kind == "null" and (p == "eq") == tr)
+        if failed:
+            return True
+    return False
+
+
 def r3(chk, prog, m):
     rid = "C20.R3"
     chk.rule(rid, "every failing return (NULL / -1) caused by a read error, a parse error, an allocation failure or an unopenable file is "
@@ -298,7 +347,9 @@ def r3(chk, prog, m):
                     break
                 work.extend(b.succs)
             sig = "failing return via %s" % pb.name
-            if silent:
+            if silent and _failure_of_message_setting_callee(prog, m, f, pb):
+                chk.proven(rid, fname, sig, pb.term.locstr(), "propagates the failure of one of this module's own functions (which answers for its own message)")
+            elif silent:
                 chk.refuted(rid, fname, sig, pb.term.locstr(), "a failing return is reachable without any error message having been set")
             else:
                 chk.proven(rid, fname, sig, pb.term.locstr(), "message set on every path to this failing return")
@@ -316,3 +367,74 @@ def r3(chk, prog, m):
     (chk.proven if ok else chk.refuted)(rid, f.name, "parse error", (ps[0] if ps else f.entry.term).locstr(),
                                         "a NULL parse result sets the message" if ok else "a parse error is returned as NULL without a retrievable message")
     chk.floor(rid, n, 6, "failing returns")
+
+
+def r5(chk, prog, m):
+    rid = "C20.R5"
+    chk.rule(rid, "a failure of the writer reaches the caller: in every function that calls the descriptor writer (_json_object_to_fd / "
+                  "json_object_to_fd), each return after the call returns the writer's own result, a negative constant, or a "
+                  "non-negative value only where a test that the writer's result is non-negative dominates")
+    from ..flow import dominating_conditions
+    n = 0
+    for f in [g for g in m.functions.values() if not g.is_decl]:
+        calls = [i for i in f.instrs() if i.op == "call" and i.callee in ("_json_object_to_fd", "json_object_to_fd") and i.res is not None]
+        if not calls or f.ret_type not in ("i32", "i64"):
+            continue
+        cfg = cfg_of(f)
+        chk.touched(f)
+        for c in calls:
+            regs, _ = derived_values(f, c.res)
+            regs = set(regs) | {c.res}
+
+            def is_result(v):
+                return v.kind == "reg" and v.v in regs
+
+            def nonneg_known(block, edge_from=None):
+                conds = list(dominating_conditions(f, block))
+                if edge_from is not None:
+                    from .c11 import _edge_conds
+                    conds = _edge_conds(f, edge_from, block)
+                for cnd, tr in conds:
+                    if getattr(cnd, "op", None) != "icmp":
+                        continue
+                    a, b = cnd.ops
+                    if not (a.kind == "reg" and a.v in regs and b.kind == "int"):
+                        continue
+                    p = cnd.x["pred"]
+                    if b.v == 0 and ((p == "slt" and not tr) or (p == "sge" and tr) or (p == "eq" and tr)):
+                        return True
+                    if b.v == -1 and ((p == "sgt" and tr) or (p == "sle" and not tr) or (p == "ne" and tr)):
+                        return True
+                return False
+            for b in f.blocks.values():
+                t = b.term
+                if t.op != "ret" or not t.ops:
+                    continue
+                if b is not c.block and b not in cfg.reachable_from(c.block):
+                    continue
+                v = t.ops[0]
+                d = f.defs.get(v.v) if v.kind == "reg" else None
+                cases = []
+                if d is not None and d.op == "phi" and d.block is b:
+                    for val, lab in d.x["incoming"]:
+                        pb = f.blocks[lab]
+                        if pb is c.block or pb in cfg.reachable_from(c.block):
+                            cases.append((val, pb))
+                else:
+                    cases.append((v, None))
+                for val, pb in cases:
+                    n += 1
+                    sig = "return after %s" % c.callee
+                    loc = (pb.term if pb is not None else t).locstr()
+                    if is_result(val):
+                        chk.proven(rid, f.name, sig, loc, "returns the writer's result")
+                    elif val.kind == "int" and val.v < 0:
+                        chk.proven(rid, f.name, sig, loc, "returns %d" % val.v)
+                    elif nonneg_known(pb if pb is not None else b, None) or (pb is not None and nonneg_known(b, pb)):
+                        chk.proven(rid, f.name, sig, loc, "reached only when the writer's result is non-negative")
+                    else:
+                        chk.refuted(rid, f.name, sig, loc,
+                                    "after %s this return yields %s, which does not depend on the writer's result: a failed write "
+                                    "(short count followed by an error, ENOSPC, EIO) is reported to the caller as success"
+                                    % (c.callee, ("the constant %d" % val.v) if val.kind == "int" else "another value (%s)" % (val.v if val.kind == "reg" else val.kind)))
+    chk.floor(rid, n, 2, "returns after the descriptor writer")
